@@ -25,6 +25,7 @@ type BoundedSpec struct {
 	Test     string // test function name
 	Contract string // what is evaluated
 	TimeoutS int
+	Table    bool // a closed evaluation without inputs (complete): reported as kind "table", not as bounded
 }
 
 // The injected test prints:
@@ -41,6 +42,14 @@ func (cc *CheckCtx) runBounded(bs BoundedSpec) {
 	}
 	defer os.RemoveAll(tmp)
 	src := filepath.Join(cc.VerifDir, "bounded", bs.File)
+	if filepath.IsAbs(bs.File) {
+		src = bs.File
+	}
+	kind, isBounded, backend := "bounded", true, "go test (bounded)"
+	if bs.Table {
+		kind, isBounded, backend = "table", false, "go test (closed evaluation on the real package)"
+		name = cc.Prop + "/table." + bs.Name
+	}
 	dst := filepath.Join(cc.Repo, bs.PkgDir, "zz_verif_bounded_test.go")
 	ov := map[string]any{"Replace": map[string]string{dst: src}}
 	ob, _ := json.Marshal(ov)
@@ -102,13 +111,17 @@ func (cc *CheckCtx) runBounded(bs BoundedSpec) {
 			if i >= 5 {
 				break
 			}
-			cc.add(&Item{Name: fmt.Sprintf("%s#%d", name, i+1), Kind: "bounded", Bounded: true, Status: "failed", Backend: "go test (bounded)", Secs: secs, Detail: bs.Contract + ": " + f, Reproduced: true, Model: f})
+			cc.add(&Item{Name: fmt.Sprintf("%s#%d", name, i+1), Kind: kind, Bounded: isBounded, Status: "failed", Backend: backend, Secs: secs, Detail: bs.Contract + ": " + f, Reproduced: true, Model: f})
 		}
 	case !sawSummary || runErr != nil:
-		cc.add(&Item{Name: name, Kind: "bounded", Bounded: true, Status: "unknown", Backend: "go test (bounded)", Secs: secs, Detail: "bounded harness did not complete: " + strings.Join(tail, " | ")})
+		cc.add(&Item{Name: name, Kind: kind, Bounded: isBounded, Status: "unknown", Backend: backend, Secs: secs, Detail: "harness did not complete: " + strings.Join(tail, " | ")})
 	default:
-		cc.add(&Item{Name: name, Kind: "bounded", Bounded: true, Status: "proved", Backend: "go test (bounded)", Secs: secs,
-			Detail: fmt.Sprintf("BOUNDED (not a proof): %s; bound: %v; evaluations: %v", bs.Contract, info["bound"], info["evaluations"])})
+		pre := "BOUNDED (not a proof): "
+		if bs.Table {
+			pre = "closed evaluation: "
+		}
+		cc.add(&Item{Name: name, Kind: kind, Bounded: isBounded, Status: "proved", Backend: backend, Secs: secs,
+			Detail: fmt.Sprintf("%s%s; bound: %v; evaluations: %v", pre, bs.Contract, info["bound"], info["evaluations"])})
 	}
 }
 
